@@ -163,3 +163,46 @@ func H_C08_filter() {
 	}
 	vCover("reached")
 }
+
+// Two distinct struct types that print alike (function-local types): a cache
+// keyed by the printed type name would mix up their field tables.
+func mkLocalT1(name, token string) interface{} {
+	type T struct {
+		Name  string
+		Token string `bexpr:"-"`
+	}
+	return T{Name: name, Token: token}
+}
+
+func mkLocalT2(name, token string) interface{} {
+	type T struct {
+		Token string `bexpr:"-"`
+		Name  string
+	}
+	return T{Token: token, Name: name}
+}
+
+// H_C08_same_named_types: evaluating against one type must not change what a
+// later evaluation against a same-named type sees of its hidden fields.
+func H_C08_same_named_types() {
+	name := vStringN(1)
+	ev := mustCreate(`Name == "x"`)
+	first := vBool()
+	if first {
+		evalO(ev, mkLocalT1(name, vStringN(1)))
+	} else {
+		evalO(ev, mkLocalT2(name, vStringN(1)))
+	}
+	a, b := mkLocalT2(name, vStringN(1)), mkLocalT2(name, vStringN(1))
+	if !first {
+		a, b = mkLocalT1(name, vStringN(1)), mkLocalT1(name, vStringN(1))
+	}
+	o1, _, _ := evalO(ev, a)
+	o2, _, _ := evalO(ev, b)
+	vAssert(o1 == o2, "after a call on a same-named type, hidden fields still do not matter")
+	f, _ := CreateFilter(`Name == "x"`)
+	r1, e1 := f.Execute([]interface{}{a})
+	r2, e2 := f.Execute([]interface{}{b})
+	vAssert((e1 == nil) == (e2 == nil) && (e1 != nil || len(r1.([]interface{})) == len(r2.([]interface{}))), "filter: same selection")
+	vCover("reached")
+}
